@@ -293,3 +293,44 @@ func queuedFacts(sb *strings.Builder) {
 	sb.WriteString("/-- PROBE: Close blocked in the connection write of the closing tag (output lock held), then a transmit call with a context\nthat is already over, queued behind it: deadline setters called while Close held the lock, closing tags once the peer reads, Close's result -/\n")
 	fmt.Fprintf(sb, "def queuedTransmitProbe : Option (List (String × List String × Nat × String)) := some [\n  %s]\n", strings.Join(rows, ",\n  "))
 }
+
+// lateErrorCell: Close, then Serve ends with a stream error of its own (handler error of the
+// given kind; garbage; a stream error received from the peer): connection writes after Close
+// returned.  The big error does not fit the encoder's buffer: whatever sendError hands to the
+// encoder after the output was closed shows on the connection at once.
+func lateErrorCell(kind string) int {
+	p, err := newProbeSess()
+	if err != nil {
+		return 99
+	}
+	defer p.peer.Close()
+	if err := p.s.Close(); err != nil {
+		return 98
+	}
+	_, w0, _ := p.pc.counts()
+	switch kind {
+	case "handler big stream error":
+		p.serveUntil(probeStanza, bigStreamErr(), false)
+	case "handler stream error":
+		p.serveUntil(probeStanza, handlerErrs["hs"], false)
+	case "handler error":
+		p.serveUntil(probeStanza, errBoom, false)
+	case "garbage":
+		p.serveUntil("x<a/>", nil, false)
+	case "peer big stream error":
+		p.serveUntil("<stream:error><conflict xmlns='urn:ietf:params:xml:ns:xmpp-streams'/><text xmlns='urn:ietf:params:xml:ns:xmpp-streams'>"+strings.Repeat("gone. ", 3000)+"</text></stream:error>", nil, false)
+	}
+	_, w1, _ := p.pc.counts()
+	return w1 - w0
+}
+
+var lateErrorKinds = []string{"handler big stream error", "handler stream error", "handler error", "garbage", "peer big stream error"}
+
+func lateErrorFacts(sb *strings.Builder) {
+	var rows []string
+	for _, k := range lateErrorKinds {
+		rows = append(rows, fmt.Sprintf("(%q, %d)", k, lateErrorCell(k)))
+	}
+	sb.WriteString("/-- PROBE: Close, then Serve ends with a stream error of its own (some too large for the encoder's buffer):\nconnection writes after Close returned -/\n")
+	fmt.Fprintf(sb, "def lateErrorProbe : Option (List (String × Nat)) := some [%s]\n", strings.Join(rows, ", "))
+}
